@@ -629,6 +629,16 @@ func (t *RaftTransaction) ListPage(ctx context.Context, prefix string, after str
 		presentKeys = append(presentKeys, nextPresentEntry)
 	}
 	verifyLimit := len(presentKeys)
+	if nextPresentEntry == "" {
+		// The scan ran to the end of the prefix, so this transaction has
+		// observed that nothing follows the last entry it saw. Verify the
+		// listing without an effective limit: with limit=len(presentKeys),
+		// an entry appended by another writer after the last one would fall
+		// outside the verified window and the transaction would commit.
+		// (MaxInt32 rather than MaxInt: the value is replicated and must
+		// parse on every architecture.)
+		verifyLimit = math.MaxInt32
+	}
 	listParams, contentsHash, err := createListVerificationEntry(prefix, after, verifyLimit, presentKeys)
 	if err != nil {
 		return nil, err
